@@ -129,6 +129,7 @@ def work(shard, res, tier, seed):
                           RSMIComparator.diff_dicts)
         elif "reaction" in c:
             carbon_one(c["reaction"], res, CheckCarbonBalance, is_carbon_balanced)
+            chain_one(c["reaction"], res, dec, RSMIComparator.compare_dicts, RSMIComparator.diff_dicts)
         return
     if "mols" in shard:
         for s in shard["mols"]:
@@ -184,6 +185,11 @@ def work(shard, res, tier, seed):
             if r["expected"]:
                 carbon_one(r["expected"], res, CheckCarbonBalance, is_carbon_balanced)
         from vgen import reactions as G
+        chain = [r["reaction"] for r in pick] + [r["expected"] for r in pick if r["expected"]]
+        chain += [rx for _, rx in G.ionic_balanced(rng, 80)] + [rx for _, rx in G.deletions(rng, 60)]
+        chain += [rx for _, rx in G.heavy_unbalanced(rng, 30)] + [rx for _, rx in G.redox_family(rng, 30)]
+        for rx in chain:
+            chain_one(rx, res, dec, RSMIComparator.compare_dicts, RSMIComparator.diff_dicts)
         for _, rx in G.dot_ring_closures(rng, 60):
             carbon_one(rx, res, CheckCarbonBalance, is_carbon_balanced)
             res.count("dot_ring_closure_inputs")
@@ -219,6 +225,51 @@ def work(shard, res, tier, seed):
             RSMIDecomposer.decompose = staticmethod(orig)
         for s, out in seen:
             check_decompose(s, res, lambda _s, o=out: o, "pipeline")
+
+
+def chain_one(rx, res, dec, compare, diff):
+    """the real chain decompose -> compare_dicts / diff_dicts on a real reaction, judged against the verdict
+    that the oracle's true compositions allow"""
+    if not oracle.in_domain_rsmi(rx):
+        res.count("out_of_domain")
+        return
+    a, b = rx.split(">>")
+    (ca, qa), (cb, qb) = oracle.comp(a), oracle.comp(b)
+    r = dict(ca)
+    p = dict(cb)
+    if qa:
+        r["Q"] = qa
+    if qb:
+        p["Q"] = qb
+    try:
+        v = compare(dec(a), dec(b))
+        d = diff(dec(a), dec(b))
+    except Exception as e:  # noqa
+        res.viol("decompose_compare_chain_raised", case={"reaction": rx}, error=repr(e)[:200])
+        return
+    res.ev()
+    res.count("chain_evaluated")
+    ge, le = truth(r, p)
+    same = r == p
+    w = dict(case={"reaction": rx}, verdict=v, diff=d, true_reactant=r, true_product=p)
+    if (v == "Balance") != same:
+        res.viol("chain_verdict_balance_wrong", **w)
+    elif v == "Products" and not (ge and not same):
+        res.viol("chain_verdict_products_but_not_dominated", **w)
+    elif v == "Reactants" and not (le and not same):
+        res.viol("chain_verdict_reactants_but_not_dominated", **w)
+    elif "Q" not in r and "Q" not in p:
+        want = "Balance" if same else "Products" if ge else "Reactants" if le else "Both"
+        if v != want:
+            res.viol("chain_verdict_not_dominance_class", want=want, **w)
+    keys = (set(r) | set(p)) - {"Q"}
+    for k in keys:
+        x = abs(r.get(k, 0) - p.get(k, 0))
+        if d.get(k, 0) != x:
+            res.viol("chain_diff_formula_wrong", element=k, **w)
+            break
+    if not same:
+        res.case(["chain", rx])
 
 
 def atom_balance_sequence(rxs, res, CCB):
@@ -271,7 +322,7 @@ def conclude_args(res, tier, seed):
     ex = res.counters.get("vector_pairs", 0) == total
     return {"need": {"decompose_evaluated:direct": 1000, "decompose_evaluated:pipeline": 100,
                      "decompose_evaluated:mixture": 100, "additivity_evaluated": 100,
-                     "vector_pairs": total, "carbon_evaluated": 300, "sweep_elements": 100, "atom_balance_sequence_evaluated": 300},
+                     "vector_pairs": total, "carbon_evaluated": 300, "sweep_elements": 100, "atom_balance_sequence_evaluated": 300, "chain_evaluated": 500},
             "min_cases": 500,
             "extra": {"exhaustive_subspace": "composition-vector pairs over {C,H,O,N} x counts 0..2 x charge "
                       "-2..2 (405^2 = %d) enumerated completely: %s; the rest of the run is sampled" % (total, ex)}}
